@@ -64,6 +64,7 @@ type CheckCtx struct {
 	maxPts        int
 	notes         []string
 	extra         map[string]any
+	altViols      map[string]map[string]*Violation
 	capped        bool
 	known         []Known
 	harnessNondet int
@@ -104,10 +105,29 @@ func (c *CheckCtx) isKnown(sig string) *Known {
 func (c *CheckCtx) addViol(v Violation) {
 	c.mu.Lock()
 	defer c.mu.Unlock()
-	old := c.viols[v.Sig]
-	if old == nil || len(v.Chosen) < len(old.Chosen) || (len(v.Chosen) == len(old.Chosen) && strings.Join(v.Chosen, ",") < strings.Join(old.Chosen, ",")) {
+	better := func(a Violation, b *Violation) bool {
+		return b == nil || len(a.Chosen) < len(b.Chosen) || (len(a.Chosen) == len(b.Chosen) && strings.Join(a.Chosen, ",") < strings.Join(b.Chosen, ","))
+	}
+	if better(v, c.viols[v.Sig]) {
 		vv := v
 		c.viols[v.Sig] = &vv
+	}
+	// alternative witnesses: the shortest one of each other scenario (up to 6). A witness
+	// that does not reproduce 5/5 (a coincidence of two goroutines at one virtual instant)
+	// must not make a signature disappear that other executions show deterministically.
+	if c.altViols == nil {
+		c.altViols = map[string]map[string]*Violation{}
+	}
+	m := c.altViols[v.Sig]
+	if m == nil {
+		m = map[string]*Violation{}
+		c.altViols[v.Sig] = m
+	}
+	if _, seen := m[v.Scn]; seen || len(m) < 6 {
+		if better(v, m[v.Scn]) {
+			vv := v
+			m[v.Scn] = &vv
+		}
 	}
 }
 
@@ -475,6 +495,33 @@ func (c *CheckCtx) finish(pd *propDef) int {
 				continue
 			}
 			ok, r := c.confirm(v, scn)
+			if !ok {
+				// try the shortest witnesses from other scenarios
+				var alts []*Violation
+				for _, a := range c.altViols[s] {
+					if a.Scn != v.Scn {
+						alts = append(alts, a)
+					}
+				}
+				sort.Slice(alts, func(i, j int) bool {
+					if len(alts[i].Chosen) != len(alts[j].Chosen) {
+						return len(alts[i].Chosen) < len(alts[j].Chosen)
+					}
+					return alts[i].Scn < alts[j].Scn
+				})
+				for _, a := range alts {
+					ascn := c.scenarioByName(pd, a.Scn)
+					if ascn == nil {
+						continue
+					}
+					if ok2, r2 := c.confirm(a, ascn); ok2 {
+						c.notes = append(c.notes, fmt.Sprintf("signature %q: witness in %s did not reproduce 5/5, witness in %s did", s, v.Scn, a.Scn))
+						c.capped = true
+						ok, r, v = true, r2, a
+						break
+					}
+				}
+			}
 			if !ok {
 				c.harnessNondet++
 				c.capped = true
